@@ -54,7 +54,11 @@ type RemoteParams struct {
 	Fault     *NetFault  `json:"fault,omitempty"`
 }
 
-type remoteProp struct{}
+type remoteProp struct {
+	// manifests whose push/delete was hit by a fault or failed: the registry may hold
+	// them while the client-side referrers index does not (or the reverse)
+	uncertain map[string]bool
+}
 
 func init() { register(&remoteProp{}) }
 
@@ -273,6 +277,7 @@ func (p *remoteProp) run(rc *RunCtx, rp *RemoteParams, info *RunInfo) *Verdict {
 
 	var v *Verdict
 	okOps := 0
+	p.uncertain = map[string]bool{}
 	res := simrt.Run(rc.NextConfig(), func() {
 		for i, op := range rp.Ops {
 			firedBefore := 0
@@ -388,6 +393,9 @@ func (p *remoteProp) step(ctx context.Context, rc *RunCtx, rp *RemoteParams, g *
 	}
 	fired, reqs := after()
 	rc.Logf("step %d %s -> err=%v (%d requests, fault fired=%v)", i, op, err, len(reqs), fired)
+	if n != nil && (fired || err != nil) && (op.Op == "push" || op.Op == "pushref" || op.Op == "delete") {
+		p.uncertain[descKey(n.Desc)] = true
+	}
 
 	if fired {
 		// a tampered response reached this operation: if the tampered field is one
@@ -601,6 +609,10 @@ func (p *remoteProp) step(ctx context.Context, rc *RunCtx, rp *RemoteParams, g *
 		got := map[string]int{}
 		for _, d := range gotList {
 			got[descKey(ocispec.Descriptor{MediaType: d.MediaType, Digest: d.Digest, Size: d.Size})]++
+		}
+		for k := range p.uncertain {
+			delete(want, k)
+			delete(got, k)
 		}
 		for k, c := range got {
 			if !want[k] || c > 1 {
